@@ -161,6 +161,12 @@ class Float(float, AnyAtomicType):
     def __abs__(self) -> Union['Float']:
         return self.__class__(super(Float, self).__abs__())
 
+    def __neg__(self) -> 'Float':
+        return self.__class__(super(Float, self).__neg__())
+
+    def __pos__(self) -> 'Float':
+        return self
+
 
 class Float10(Float):
     """xs:float for XSD 1.0"""
